@@ -10,7 +10,7 @@ OBLIGATIONS = [
        functions=[P + "fastq/file.py:FastqFile.__setitem__/__getitem__/__delitem__/_find_entries/read/read_iter", "src/biotite/file.py:TextFile.read/write/read_iter, wrap_string"],
        stubs=["_scores_to_score_str/_score_str_to_scores (numpy int8 <-> bytes) -> the same +offset/-offset arithmetic on symbolic ints",
               "file objects -> SFile (symbolic text buffer)"],
-       bounds="2 entries, sequence lengths 1..3 (thorough 1..4), every score symbolic over the whole valid range of the offset (33: 0..93, 64: 0..62) so that '@'/'+' can start any line, chars_per_line in {None,1,2,3}, edits {none, replace first, delete first}"),
+       bounds="2 entries, sequence lengths 1..3 (thorough 1..4), every score symbolic over the whole valid range of the offset (33: 0..93, 64: -31..62, i.e. every character '!'..'~') so that '@'/'+' can start any line, chars_per_line in {None,1,2,3}, edits {none, replace first, delete first}"),
     SX("sx_gff", "sx_c12", "ob_gff", cls="S", quick=200, thorough=1500, parts={"quick": 4, "thorough": 8},
        functions=[P + "gff/file.py:GFFFile._create_line/__getitem__/_parse_attributes/_index_entries/append/read"],
        stubs=["urllib.parse.quote/unquote -> SX models (validated against urllib on every run; ASCII only)", "empty dict displays -> SDict (symbolic keys)"],
@@ -25,6 +25,9 @@ OBLIGATIONS = [
        functions=["src/biotite/sequence/io/genbank/annotation.py:get_annotation/set_annotation/_set_qual", "src/biotite/sequence/io/genbank/sequence.py:get_annotated_sequence/set_annotated_sequence",
                   "src/biotite/sequence/io/gff/convert.py:get_annotation/set_annotation", "src/biotite/sequence/io/gff/file.py:GFFFile.append/_create_line/_parse_attributes"],
        bounds="1..2 features: key from 5 (thorough 6) incl. two 15-character keys; 10 location sets (single base, joins, same and MIXED strands, every defect); 6 (7) qualifier sets (spaces, slashes, '=', several values, no value only, long wrapped value); second feature from a small menu; GenBank: in memory and through text, include_only, annotated sequence with sequence start 1 and 7; GFF3: stranded and unstranded, in memory and through text"),
+    SX("sx_fastq_real", "sx_c12_annot", "ob_fastq_real", cls="E", quick=200, parts=4,
+       functions=["src/biotite/sequence/io/fastq/file.py:_score_str_to_scores/_scores_to_score_str (numpy helpers, stubbed in sx_fastq)", "src/biotite/sequence/io/fastq/file.py:FastqFile/read_iter/write_iter"],
+       bounds="5 offsets (33, 64 and three format names) x score runs of 1, 2, 5 and 94 values starting at the lowest representable score, just above it, at -5, at 0 and ending at the highest one (characters '!'..'~': negative scores for offset 64 included) x 4 line widths: in memory, through text, read_iter, write_iter"),
 ]
 EXPLANATION = "C12: sequence file formats return what was written."
 ASSUMPTIONS = []
